@@ -5,7 +5,6 @@
    function of the layout's tokens (RelGrammarAllParseP.parse_atoks), it comes for free. *)
 From V.model Require Import Base RelLex RelParse RelAcc RelGrammar RelGrammarAll.
 From V.proofs Require Import BaseP RelLexP RelParseP RelGrammarLexP RelGrammarParseP RelLexInvP RelGrammarAllParseP.
-Set Default Timeout 60.
 
 Transparent bump skip_ws error expect in_node out_of_fuel version_text version_run cur_is_vtok.
 
